@@ -601,3 +601,113 @@ def obs_random(rng, n, heads=("unique", "shared", "guard"), minlen=10, maxlen=40
                 ops.append("sget(%d)" % k)
         cases.append("%s :: %s" % (head, " ; ".join(ops)))
     return cases
+
+
+# ---------------------------------------------------------------- chains (mode chain)
+def chain_stage_pool():
+    pool = []
+    for kind in ("head", "tail", "skip"):
+        for p in (0, 2, 5):
+            pool.append("%s:static:%d" % (kind, p))
+            pool.append("%s:dyninit:%d" % (kind, p))
+        pool.append("%s:dynamic:-" % kind)
+        pool.append("%s:dynamic:-:self" % kind)
+    for m in (85, 170, 255, 0):
+        pool.append("filter:-:%d" % m)
+        pool.append("filter_map:-:%d" % m)
+    return pool
+
+
+def chain_history(rng, stages, nev):
+    bat = rng.choice("ub")
+    n0 = rng.randrange(7)
+    src_len = n0
+    head = "%s %s" % (bat, vec([rng.randrange(40) for _ in range(n0)]))
+    evs = ["D"] if rng.random() < 0.5 else []
+    dyn = [k for k, s in enumerate(stages) if s.split(":")[1] in ("dyninit", "dynamic")]
+    length = src_len
+
+    def one_diff():
+        nonlocal length
+        for _ in range(20):
+            k = rng.randrange(12)
+            x = rng.randrange(40)
+            if k == 0:
+                a = [rng.randrange(40) for _ in range(rng.randrange(4))]
+                length += len(a)
+                return "Append" + vec(a)
+            if k == 1 and rng.random() < 0.4:
+                length = 0
+                return "Clear"
+            if k == 2:
+                length += 1
+                return "PushFront(%d)" % x
+            if k in (3, 11):
+                length += 1
+                return "PushBack(%d)" % x
+            if k == 4 and length > 0:
+                length -= 1
+                return "PopFront"
+            if k == 5 and length > 0:
+                length -= 1
+                return "PopBack"
+            if k == 6:
+                i = rng.randrange(length + 1)
+                length += 1
+                return "Insert(%d,%d)" % (i, x)
+            if k == 7 and length > 0:
+                return "Set(%d,%d)" % (rng.randrange(length), x)
+            if k == 8 and length > 0:
+                i = rng.randrange(length)
+                length -= 1
+                return "Remove(%d)" % i
+            if k == 9 and length > 0:
+                t = rng.randrange(length)
+                length = t
+                return "Truncate(%d)" % t
+            if k == 10 and rng.random() < 0.4:
+                a = [rng.randrange(40) for _ in range(rng.randrange(5))]
+                length = len(a)
+                return "Reset" + vec(a)
+        length += 1
+        return "PushBack(1)"
+
+    for _ in range(nev):
+        r = rng.random()
+        if r < 0.45:
+            evs.append("d:" + one_diff())
+        elif r < 0.6:
+            evs.append("b:" + "|".join(one_diff() for _ in range(rng.randrange(1, 4))))
+        elif r < 0.8 and dyn:
+            evs.append("l%d:%d" % (rng.choice(dyn), rng.randrange(8)))
+        else:
+            evs.append("D")
+        if rng.random() < 0.5:
+            evs.append("D")
+    if rng.random() < 0.3:
+        evs.append("es")
+    evs.append("D")
+    return "%s | %s :: %s" % (head, " | ".join(stages), " ; ".join(evs))
+
+
+def chain_cases(rng, all_pairs, ntriples, hist_per_chain, maxev=14):
+    pool = chain_stage_pool()
+    chains = []
+    if all_pairs:
+        for a in pool:
+            for b in pool:
+                if b.endswith(":self"):
+                    continue          # the last stage cannot hand itself on
+                chains.append([a, b])
+    for _ in range(ntriples):
+        a, b, c = rng.choice(pool), rng.choice(pool), rng.choice(pool)
+        if c.endswith(":self"):
+            c = c[:-5]
+        if a.endswith(":self") and b.endswith(":self"):
+            b = b[:-5]                # two consecutive self hand-overs are not exercised (see DESIGN)
+        chains.append([a, b, c])
+    cases = []
+    for ch in chains:
+        for _ in range(hist_per_chain):
+            cases.append(chain_history(rng, ch, rng.randrange(2, maxev)))
+    return cases
